@@ -197,7 +197,10 @@ func (r *readOnlySegmentsGroup) PollHighestSegment() (object.RefCount[ReadOnlySe
 	r.allSegments.Remove(offset)
 	segment, found := r.openSegments.Get(offset)
 	if found {
-		return segment.Acquire(), nil
+		// The segment leaves the group: it must leave the cache of open segments too,
+		// and the reference held by the cache is handed over to the caller
+		r.openSegments.Remove(offset)
+		return segment, nil
 	}
 
 	roSegment, err := newReadOnlySegment(r.basePath, offset)
